@@ -13,8 +13,8 @@ RULE = (
     "non-trivial = n>=2 and >=1 state element; distinct = canonical circuit + parameters"
 )
 BUDGET = {
-    "quick": {"workers": 16, "cases": 90, "secs": 45, "min_cases": 700},
-    "thorough": {"workers": 16, "rounds": 4, "cases": 350, "secs": 240, "min_cases": 6000},
+    "quick": {"workers": 16, "cases": 800, "secs": 60, "min_cases": 6400},
+    "thorough": {"workers": 16, "rounds": 4, "cases": 2200, "secs": 420, "min_cases": 70400},
 }
 ANCHORS = ["tx:unroll", "tx:sequential_unroll"]
 
